@@ -2168,7 +2168,7 @@ class HCI_Object:
             )
 
         # Measure the widest field name
-        max_field_name_length = max(len(s[0]) for s in field_strings)
+        max_field_name_length = max((len(s[0]) for s in field_strings), default=0)
         sep = ':'
         return '\n'.join(
             f'{indentation}'
